@@ -378,3 +378,40 @@ package shaping
 //@   ensures [end-line-only-at-text-end] implies(result0 == endLine, result1.Runes.Count+result1.Runes.Offset == l.breaker.totalRunes && !l.config.TextContinues)
 //@   ensures [truncated-otherwise] implies(result0 == truncated, !(result1.Runes.Count+result1.Runes.Offset == l.breaker.totalRunes && !l.config.TextContinues))
 //@   modifies l.scratch.alt; l.scratch.altAdvance; l.mapper; all(glyphIndex); all(Output)
+//
+// ---------------------------------------------------------------------------------------------
+// Property C07: itemization partitions the text into uniform runs.
+// Assumed contract of the Fontmap interface (documented: "It must always return a valid (non nil) *font.Face"; determinism
+// is the property's implicit hypothesis): ResolveFace is a function faceFor(fontmap, rune) and does not touch the runs.
+//@ opaque faceFor(fm Fontmap, r rune) region
+//@ opaque ignorableRune(r rune) bool
+//@ trusted Fontmap.ResolveFace
+//@   params fm, r
+//@   ensures [non-nil] result != nil && rid(result) == faceFor(fm, r) && off(result) == 0
+//@   modifies nothing
+//@ trusted ignoreFaceChange
+//@   ensures [def] result == ignorableRune(r)
+//@   modifies nothing
+//
+// sameRunFields: everything a splitting pass must not touch.
+//@ spec sameRunFields(a Input, b Input) bool = sameslice(a.Text, b.Text) && a.Direction == b.Direction && sameslice(a.FontFeatures, b.FontFeatures) && a.Size == b.Size && a.Script == b.Script && a.Language == b.Language
+//@ func splitByFace C07
+//@   mode int
+//@   requires 0 <= input.RunStart && input.RunStart <= input.RunEnd && input.RunEnd <= len(input.Text) && len(buffer) <= 1<<30
+//@   ensures [appends] len(result) > len(buffer0) && forall(k, 0, len(buffer0), result[k].RunStart == old(buffer0[k].RunStart) && result[k].RunEnd == old(buffer0[k].RunEnd) && result[k].Face == old(buffer0[k].Face))
+//@   ensures [starts] result[len(buffer0)].RunStart == input.RunStart
+//@   ensures [ends] result[len(result)-1].RunEnd == input.RunEnd
+//@   ensures [contiguous] forall(k, len(buffer0), len(result)-1, result[k].RunEnd == result[k+1].RunStart)
+//@   ensures [non-empty] implies(input.RunStart < input.RunEnd, forall(k, len(buffer0), len(result), result[k].RunStart < result[k].RunEnd))
+//@   ensures [same-fields] forall(k, len(buffer0), len(result), sameRunFields(result[k], input))
+//@   ensures [has-face] implies(input.RunStart < input.RunEnd, forall(k, len(buffer0), len(result), result[k].Face != nil))
+//@   modifies buffer[len(buffer):cap(buffer)]
+//@   loop 1 invariant [i-range] input.RunStart <= i && i <= input.RunEnd
+//@   loop 1 invariant [current] sameRunFields(currentInput, input) && currentInput.RunStart <= i && implies(currentInput.RunStart == i, i == input.RunStart) && input.RunStart <= currentInput.RunStart
+//@   loop 1 invariant [face-at-end] implies(i == input.RunEnd && input.RunStart < input.RunEnd, currentInput.Face != nil)
+//@   loop 1 invariant [grows] len(buffer) >= len(buffer0) && len(buffer) <= len(buffer0) + (i - input.RunStart)
+//@   loop 1 invariant [prefix] forall(k, 0, len(buffer0), buffer[k].RunStart == old(buffer0[k].RunStart) && buffer[k].RunEnd == old(buffer0[k].RunEnd) && buffer[k].Face == old(buffer0[k].Face))
+//@   loop 1 invariant [chain-start] ite(len(buffer) == len(buffer0), currentInput.RunStart == input.RunStart, buffer[len(buffer0)].RunStart == input.RunStart && buffer[len(buffer)-1].RunEnd == currentInput.RunStart)
+//@   loop 1 invariant [chain] forall(k, len(buffer0), len(buffer)-1, buffer[k].RunEnd == buffer[k+1].RunStart)
+//@   loop 1 invariant [non-empty] forall(k, len(buffer0), len(buffer), buffer[k].RunStart < buffer[k].RunEnd && buffer[k].Face != nil && sameRunFields(buffer[k], input))
+//@   loop 1 invariant [frame-spare] (rid(buffer) == rid(buffer0) && off(buffer) == off(buffer0) && cap(buffer) == cap(buffer0)) || fresh(buffer)
